@@ -10,6 +10,9 @@ for l in open('/verif/properties.jsonl'):
         break
 else:
     sys.exit('no such property')
+ROUND2 = ""
+if len(sys.argv) > 3:
+    ROUND2 = "\n\nEARLIER ATTEMPTS (by other people) already cover the following mechanisms - yours must use DIFFERENT code sites and mechanisms:\n" + open(sys.argv[3]).read()
 print(f"""You are helping test a verification effort for the Go library xtaci/kcp-go (reliable UDP: KCP ARQ core, Reed-Solomon FEC, per-packet encryption, timed scheduler).
 
 You have your OWN scratch git worktree of the library at /tmp/mut-{pid} . Work ONLY there and in /tmp/mut-out/ . Do not read, list or modify /repo or /verif (your result must be independent of anything there).
@@ -23,7 +26,7 @@ TASK. Produce {n} different change(s) (mutants) to the library's non-test source
   2. still passes the library's existing test suite unchanged (no edits to *_test.go),
   3. is realistic — the kind of defect a maintainer could plausibly introduce (a refactor slip, an off-by-one, a dropped case, a misplaced unlock, an 'optimisation', two sites that each look fine alone) — not sabotage guarded by magic constants,
   4. needs something SPECIFIC to manifest: a particular interleaving, a fault/loss at a particular point, a multi-step sequence of operations, an unusual input/configuration, or two cooperating sites. It must NOT be exposed at once by ordinary use (ordinary use is what the existing suite does).
-Use different mechanisms / code sites for the different mutants.
+Use different mechanisms / code sites for the different mutants.{ROUND2}
 
 For each mutant also write a DEMONSTRATION: a Go test (package kcp, e.g. zz_demo_test.go, placed in the worktree root while you run it) or small program that FAILS with the change applied and PASSES on the unchanged tree, deterministically if at all possible (you may drive internal types directly since the test is in package kcp).
 
